@@ -87,6 +87,11 @@ add("K8", "C06", "open", "a field of object type selected without a sub-selectio
     hazard="K8", symptoms=[r"^accepted E3: no-subselection"], engine="A", extra={"schema": BASE, "document": "query Q { me }\n", "rule": "E3", "label": "no-subselection@op:Q/me"})
 
 
+add("K10", "C17", "open", "a chain of 60,000 input types (I0 { next: I1 } ... ; flat SDL, 2.4 MB) used by a variable overflows the 8 MiB stack in the recursive "
+    "used-input walk (schema.rs used_input_ids_recursive), SIGABRT; 30,000 still comes back (after 200 s: the walks are quadratic). A repair means "
+    "rewriting both input-graph walks iteratively and still leaves quadratic time",
+    hazard="K10", symptoms=[r"^killed-by-signal 6 \(long-chain-hazard\).*overflowed its stack"], engine="A",
+    extra={"generator": "schema = ''.join('input I%d { next: I%d v: Int }' % (i, i+1) for i in range(60000)) + 'input I60000 { v: Int } type Query { f(a: I0): Int }'; query Q($a: I0) { f(a: $a) }"})
 add("F1", "C17", "fixed", "fragment spread cycle without __typename on an interface / union overflowed the stack in the __typename search (SIGABRT)",
     commit="51c05cf", engine="A")
 add("F2", "C08", "fixed", "a failing schema / query load poisoned the cache mutex: every later call in the process panicked with `cache is poisoned`",
